@@ -21,7 +21,10 @@ LEVEL_TEXT = ("Theorems in coq/Props/C09.v about coq/Schema/Sem.v (impl-model of
               "denotes v, never panics, and reports every rejection as an error. For each of the ten confirmed "
               "leniencies and two panics of bindnode a _refuted theorem gives a closed witness under the pinned "
               "switches. The model with the pinned switches is run against bindnode on generated inputs; the "
-              "oracle is conforms_t / conforms_r evaluated on what the implementation did.")
+              "oracle is conforms_t / conforms_r evaluated on what the implementation did. C09_bytes_accept_iff composes "
+              "C03's decode_iff with C09_accept_iff: fed by the strict dag-cbor decoder a typed builder accepts exactly the "
+              "byte strings that are one well-formed DAG-CBOR item denoting a conforming tree; that the streaming Go decoder "
+              "equals decode-then-build is tied by the bytes records (model: extracted decode followed by rbuild).")
 LEVEL_NOTE = ("Trusted: Coq kernel, extraction, Go harness (generators, routes, dumper), hand-written model tied by "
               "the differential run. Schemas are finite trees; map keys are strings; ints stay within int64 except "
               "in the fixed int8 family; a repeated field of slice/map/struct Go type (bindnode merges old and new "
@@ -32,7 +35,10 @@ RULE = ("random well-formed schemas x {type level, representation level} x (2 co
         "repeated, renamed, retyped, reordered, nulled entries; wrong discriminants and kinds; extra/short tuple and "
         "listpairs entries; unknown enum members; every non-conforming stringprefix shape, with and without a "
         "delimiter) x 2 routes, plus trees in which one struct/union position is filled by AssignNode of a node built "
-        "under a sibling schema type (same Go type, other schema), plus a fixed corpus of witnesses on every route; "
+        "under a sibling schema type (same Go type, other schema), plus dag-cbor BYTES (registered encoder, given order with "
+        "repeats, near-valid CborMut departures, flipped bytes) of conforming and mutated representation trees decoded by "
+        "the strict decoder straight into the representation builder (bindnode and generated code), plus a fixed corpus "
+        "of witnesses on every route; "
         "distinct = distinct (schema, level, route, tree); non-trivial = schema text longer than 8 characters")
 
 
